@@ -23,7 +23,9 @@ OUT=${MATRIX_OUT:-$ROOT/seeded/matrix.tsv}
 for id in $ids; do
   ( cd $WT && git checkout -q -- . && git clean -fdq && git apply $ROOT/seeded/$id/patch.diff ) || { echo "$id APPLY-FAILED" | tee -a $OUT.new; continue; }
   prop=$(python3 -c "import json;print(json.load(open('$ROOT/seeded/$id/meta.json'))['property'])")
-  if [ -n "$ALL" ]; then run=$checks; else run="$prop $(related $prop)"; fi
+  # checks that the seed's meta note names as the ones that catch it (cross-property seeds) are run too
+  named=$(python3 -c "import json,re;m=json.load(open('$ROOT/seeded/$id/meta.json'));print(' '.join(sorted(set(re.findall(r'check (C[0-9][0-9])', m.get('note',''))))))")
+  if [ -n "$ALL" ]; then run=$checks; else run=$(echo "$prop $(related $prop) $named" | tr ' ' '\n' | awk 'NF && !seen[$0]++' | tr '\n' ' '); fi
   for c in $run; do
     out=$(cd $VC && ./check $c --tier quick 2>&1); rc=$?
     nv=$(echo "$out" | grep -c '^VIOLATION')
